@@ -49,19 +49,40 @@ Definition order_ok (sc : scenario) (o : out) : bool :=
 
 Definition no_keys (f : frame_in) : bool := match r_keys (f_raw f) with [] => true | _ => false end.
 
-Fixpoint judge_steps (sc : scenario) (prev_quiet : bool) (before : out) (steps : list step) (outs : list out) : list (Z * bool) :=
+(* a context type that ARRIVES while the keys stay down changes nothing for the instances already there: its own
+   bindings are ignored until released (C08), so the winners keep winning and the losers stay silent.  [pf]: the
+   last frame (its keys, its output) and the instances built since, if only insertions happened since *)
+Definition keys_eqb (a b : frame_in) : bool := list_eqb Z.eqb (r_keys (f_raw a)) (r_keys (f_raw b)).
+Definition same_states (built : list (Z * Z)) (o0 o : out) : bool :=
+  forallb (fun s => match s with
+                    | sn c e a (Some d) =>
+                        (if ctx_shared c then existsb (fun p => Z.eqb (fst p) c) built
+                         else existsb (fun p => Z.eqb (fst p) c && Z.eqb (snd p) e) built) ||
+                        match snap_of_entry c e a (x_snaps o) with Some d' => state_eqb (sn_state d) (sn_state d') | None => true end
+                    | _ => true
+                    end) (x_snaps o0).
+Definition is_insertion (o : op) : bool := match o with OInsert _ _ | OSpawn _ _ => true | _ => false end.
+Fixpoint judge_steps (sc : scenario) (prev_quiet : bool) (pf : option (frame_in * out * list (Z * Z))) (before : out) (steps : list step) (outs : list out) : list (Z * bool) :=
   match steps, outs with
   | SFrame f :: steps', o :: outs' =>
       (8, negb (x_panicked o)) :: (2, order_ok sc o) ::
       (if prev_quiet && negb (no_keys f) then [(1, pairs_ok sc before o)] else []) ++
-      judge_steps sc (no_keys f) o steps' outs'
-  | SOp _ :: steps', o :: outs' => (8, negb (x_panicked o)) :: judge_steps sc false o steps' outs'
+      (match pf with
+       | Some (f0, o0, built) => if keys_eqb f0 f && negb (no_keys f) then [(3, same_states built o0 o)] else []
+       | None => []
+       end) ++
+      judge_steps sc (no_keys f) (match f_ops f with [] => Some (f, o, []) | _ => None end) o steps' outs'
+  | SOp op1 :: steps', o :: outs' =>
+      (8, negb (x_panicked o)) ::
+      judge_steps sc false (match pf with
+                            | Some (f0, o0, built) => if is_insertion op1 then Some (f0, o0, built ++ x_built o) else None
+                            | None => None end) o steps' outs'
   | [], [] => []
   | _, _ => [(9, false)]
   end.
 Definition ok (p : scenario * trace_t) : Z :=
   match p with
-  | (sc, trace outs) => first_fail (judge_steps sc false (mkOut [] [] [] [] [] [] [] true true false) (s_steps sc) outs)
+  | (sc, trace outs) => first_fail (judge_steps sc false None (mkOut [] [] [] [] [] [] [] true true false) (s_steps sc) outs)
   | (_, panic) => 10
   end.
 Definition bad_agree := bad agree_full.
